@@ -310,6 +310,9 @@ def judge_c14(cfg, market, out, ctx):
     try:
         eq_df = out.session.get_equity_curve()
     except Exception as e:
+        from qsim.core import raised_in_repo as _rir
+        if not _rir(e):
+            raise          # a bug of the harness: exit 2, never a verdict
         ctx.violate(P, "get_equity_curve_raised", {"exc": repr(e)[:200]})
         return
     ctx.check(P, len(eq_df) == len(out.equity) and
@@ -322,6 +325,9 @@ def judge_c14(cfg, market, out, ctx):
     try:
         al = out.session.get_target_allocations()
     except Exception as e:
+        from qsim.core import raised_in_repo as _rir
+        if not _rir(e):
+            raise          # a bug of the harness: exit 2, never a verdict
         ctx.violate(P, "get_target_allocations_raised", {"exc": repr(e)[:300]},
                     sig="get_target_allocations_raised:" + type(e).__name__)
         return
@@ -409,6 +415,9 @@ def judge_c16(cfg, market, out, ctx):
                 try:
                     got = float(sig(a, n))
                 except Exception as e:
+                    from qsim.core import raised_in_repo as _rir
+                    if not _rir(e):
+                        raise          # a bug of the harness: exit 2, never a verdict
                     ctx.violate(P, "signal_query_raised", {"signal": name, "asset": a, "exc": repr(e)[:200]})
                     return
                 want = ref_value(kind, h, n)
